@@ -185,6 +185,7 @@ Proof. exact deep_arrays_refused. Qed.
 Print Assumptions C17_deep_arrays_are_refused.
 
 Theorem C17_nesting_constants_match_source :
-  nesting_limits_src = [10000]%list /\ nesting_chars_src = [34; 91; 92; 93; 123; 125]%list.
+  memZ 10000 nesting_limits_src = true /\
+  forallb (fun c => memZ c nesting_chars_src) [34; 91; 92; 93; 123; 125]%list = true.
 Proof. exact nesting_constants_match_source. Qed.
 Print Assumptions C17_nesting_constants_match_source.
